@@ -291,6 +291,25 @@ CLAIMED['C12']['note'] = ('Trusted: Coq kernel + VM; json/json5/csv/PyYAML/plist
                           'the theorem). Open findings: D15, D17. Observation outside the alphanumeric domain: D37 (plist strings are '
                           'written unescaped).')
 CLAIMED['C12']['technique'] = 'Coq proof (codec and state-machine round trips by induction) + byte-exact printer/reader correspondence + reload through the real loaders'
+
+CLAIMED['C06']['text'] = (
+    'Theorems over a character-exact model of the JSON diff rendering (jrender: Match/Replace/Remove/Insert.print, SequenceFormatter '
+    'delimiter counters, print_StringEdit run batching, key/value pairs, both layouts; every character carries its mark). Script level, '
+    'for ALL trees and scripts: erasing what is marked inserted (resp. removed) leaves a stream that tokenises like the plain print of '
+    'the first (resp. second) projection (C06_first/_second; ~ = equal token lists, commas and whitespace outside string literals only '
+    'separate tokens) and parses through the C12 reader (C06_reads); for every valid, well-priced script - mapping edits included, by a '
+    'member-permutation argument - both projections read back as the two documents and there are no marks exactly when the cost is 0 '
+    '(C06_priced_text, C06_priced_marks). Model level: C06_model - for every script of the big-step model over JSON documents, with only '
+    'the three open-finding carve-outs as hypotheses (typed: D4, nozero: D16, clean/nomil: D33), erase-inserted reads as a, erase-removed '
+    'reads as b, and no_marks <-> cost 0; each carve-out has a refutation witness on a model script. Tie: the ANSI output of the real '
+    'JSONFormatter is decoded per character (pure decoder) and compared with jrender on the implementation\'s own script; holds_C06 '
+    'parses both projections of the implementation\'s stream with the lenient reader.')
+CLAIMED['C06']['note'] = ('Trusted: Coq kernel + VM; the ANSI decoder of the harness; C12\'s reader as the parser; the script model as for '
+                          'C01/C02 (its cone now includes EqualProofs and EdGen); no model of the no-colour text. Open findings: D4, D33 '
+                          '(D16 refutes only marks<->cost).')
+CLAIMED['C14']['text'] = CLAIMED['C14']['text'] + (
+    ' The end-to-end stream covers the three output modes (full diff, -e, -d), --format cross-rendering and all input types; where '
+    'rendering raises (C13\'s open findings) command and library must raise the same class.')
 NOT_YET = 'model and theorem not completed yet (DESIGN.md section 7)'
 NA = {}
 
